@@ -32,7 +32,7 @@ from vq.gen import c10_build as B
 #   KEY_PP  pure_phase + apply_fov_mask + some mask value < 1  =>  |o| = mask^2 != 1.  Repaired by
 #           fix-pure-phase-fov-mask (replays/C10/pure-phase-*.json); the key only matters if that fix
 #           is declined and the defect is recorded as a finding instead.
-#   KEY_RE  complex + apply_fov_mask + some mask value strictly inside (0,1) + re-application:
+#   KEY_RE  complex + apply_fov_mask + some (effective: slice-mean under identical_slices) mask value strictly inside (0,1) + re-application:
 #           every application multiplies the amplitude by mask^2 again.
 KEY_PP = "fov-mask-pure-phase-amplitude"
 KEY_RE = "fov-mask-reapply-amplitude"
@@ -156,7 +156,11 @@ def obj_cases(draw, ctx=None, obj_type=None, min_slices=1, force=None, max_side=
             ctx.exclude(KEY_PP)
             case["mask"] = {"mode": "ones", "seed": mask["seed"]}
             m = np.ones_like(m)
-        if ctx.is_open(KEY_RE) and case["reapply"] and obj_type == "complex" and bool(np.any((m > 0) & (m < 1))):
+        # ... under identical_slices the tied slices carry the slice-MEAN of per-slice masks, so binary masks that differ
+        # between slices act like a fractional mask (same defect, found by the thorough tier after per-slice masks
+        # were introduced)
+        m_eff = m.mean(axis=0) if (m.ndim == 3 and eff["identical_slices"]) else m
+        if ctx.is_open(KEY_RE) and case["reapply"] and obj_type == "complex" and bool(np.any((m > 0) & (m < 1)) or np.any((m_eff > 0) & (m_eff < 1))):
             ctx.exclude(KEY_RE)
             case["reapply"] = False
     return case
